@@ -21,7 +21,7 @@ pub enum Stmt {
     Block(Option<u32>, Vec<Stmt>),
     Loop(u32, Vec<Stmt>),
     /// `l: while { cond-statements; <decision> } { body }`: the condition is a block of its own
-    /// (defers, jumps to `l` or further out). NOT in the Lean model (oracle only).
+    /// (defers, jumps to `l` or further out); `Stmt.loopC` in the Lean model.
     LoopC(u32, Vec<Stmt>, Vec<Stmt>),
     If(Vec<Stmt>),
     Brk(u32),
@@ -53,7 +53,7 @@ pub fn sexp(stmts: &[Stmt]) -> String {
                 s.push_str(&format!("(block {} {})", l.map(|x| x.to_string()).unwrap_or("-".into()), sexp_inner(b)));
             }
             Stmt::Loop(l, b) => s.push_str(&format!("(loop {l} {})", sexp_inner(b))),
-            Stmt::LoopC(l, c, b) => s.push_str(&format!("(loopc {l} {} {})", sexp_inner(c), sexp_inner(b))),
+            Stmt::LoopC(l, c, b) => s.push_str(&format!("(loopc {l} {} {})", sexp(c), sexp(b))),
             Stmt::If(b) => s.push_str(&format!("(if {})", sexp_inner(b))),
             Stmt::Brk(l) => s.push_str(&format!("(brk {l})")),
             Stmt::Cont(l) => s.push_str(&format!("(cont {l})")),
@@ -884,7 +884,7 @@ pub fn run(tier: &str, seed: u64, widen: bool) -> Report {
     let mut rep = Report::new(
         "C03",
         "real capy CLI + built executable (event trace on stdout) vs Lean model CapyV.Defer.runCompiled (and runSpec) on generated DeferLang programs",
-        "corpus of past failures first (incl. the seeded/C03_1 demo), then seeded random programs: <= 4 nested blocks/loops below the function body, <= 3 defers per block, a defer holds a body (atomic print, or a block with inner labelled loops/blocks, if, conditional break/continue to inner labels, nested defers, <= 3 defer levels), break/continue/return/.try in every position (conditional and as last statement), 2 of 5 programs are built around a frame with an earlier defer + a deferred block with its own jump that is left by a jump, 1 of 5 around two nested loops where the inner one has its own jump and a jump to the outer one past defers of the outer body, 1 of 10 around a loop whose condition is a block with a jump (oracle only: not in the Lean model); each program run under 6 decision sequences of up to 48 decisions; non-trivial = the program has a defer and a jump (break/continue/return/.try); distinct by (program, decisions)",
+        "corpus of past failures first (incl. the seeded/C03_1 demo), then seeded random programs: <= 4 nested blocks/loops below the function body, <= 3 defers per block, a defer holds a body (atomic print, or a block with inner labelled loops/blocks, if, conditional break/continue to inner labels, nested defers, <= 3 defer levels), break/continue/return/.try in every position (conditional and as last statement), 2 of 5 programs are built around a frame with an earlier defer + a deferred block with its own jump that is left by a jump, 1 of 5 around two nested loops where the inner one has its own jump and a jump to the outer one past defers of the outer body, 1 of 10 around a loop whose condition is a block with defers and a jump; each program run under 6 decision sequences of up to 48 decisions; non-trivial = the program has a defer and a jump (break/continue/return/.try); distinct by (program, decisions)",
     );
     if !e2e::available() {
         rep.notes.push("capy CLI binary missing".into());
@@ -908,25 +908,14 @@ pub fn run(tier: &str, seed: u64, widen: bool) -> Report {
     let progs: Vec<Program> = cases.iter().map(|(b, o)| Program::single(&to_capy(b, o))).collect();
     let outcomes = e2e::run_all(&progs, e2e::Limits::default());
     // ask the model
-    // programs with a block-conditioned loop are outside the Lean model: oracle only
-    let modelled = |b: &[Stmt]| !any(b, &|s| matches!(s, Stmt::LoopC(..)));
     let mut reqs = vec![];
     for (b, os) in &cases {
-        if !modelled(b) {
-            continue;
-        }
         for o in os {
             let bits: String = if o.is_empty() { "-".into() } else { o.iter().map(|x| if *x { '1' } else { '0' }).collect() };
             reqs.push(format!("C03 run 1000 {} {}", bits, sexp(b)));
         }
     }
-    let mut model_answers = lean::ask(&reqs).into_iter();
-    let mut answers = vec![];
-    for (b, os) in &cases {
-        for _ in os {
-            answers.push(if modelled(b) { model_answers.next().unwrap_or_else(|| "?".into()) } else { "?".to_string() });
-        }
-    }
+    let answers = lean::ask(&reqs);
     let mut ai = 0;
     for ((b, os), out) in cases.iter().zip(outcomes.iter()) {
         let sx = sexp(b);
